@@ -171,3 +171,13 @@ claim('C01',
       'a region change carries the overall mixed mean; low-fidelity models satisfy Q = m cp dT with a cancelling ring exchange. The numeric residual and run-time adjacency symmetry are NOT decided.',
       'Trusted: atom tables in dsa/rules/c01.py (unknown quantities become fresh symbols and surface as residuals), dsa/poly.py.',
       'DESIGN.md 4 C01')
+claim('C04',
+      'exact polynomial algebra (D_poly) with algebraic evaluation of each step-criterion function on its call-site arguments, compared with the coefficient sum of the update operator for every criterion x scenario; normalisation identities; orientation and aggregation rules',
+      'Structural necessary conditions of C04 (DESIGN 4.4), decided algebraically: for each of the 12 live pin-bundle and bypass step criteria, in every boundary scenario (coupled / convection '
+      'approximation / adiabatic), the reciprocal of the criterion evaluated on the arguments bound at its call site equals exactly the sum of the coefficients the update operator applies to that '
+      'cell (conduction per neighbour in the suffix, wall term, swirl), so dz <= criterion makes the own-temperature weight 1 - dz*sum >= 0 with weights summing to one; the same identity holds for '
+      'the flowing-gap criterion (sum of d/L_j) and the single-node and six-node low-fidelity criteria; the no-flow gap and stagnant-bypass models are normalised convex combinations; every exchange '
+      'term is coefficient x (T_neighbour - T_self); requirements are aggregated with min over types, temperatures, regions, assemblies and the gap and rounded down. Non-negativity of the physical '
+      'inputs is assumed; agreement of run-time neighbour multisets with the criterion chosen by pin count is NOT decided.',
+      'Trusted: atom tables and call-site bindings in dsa/rules/c04.py, dsa/poly.py, dsa/algeval.py (straight-line evaluation along the path selected by the boolean flags; no path search, no solver).',
+      'DESIGN.md 4 C04')
